@@ -141,6 +141,26 @@ Proof.
               now exists (c :: a), b.
 Qed.
 
+(* a line is blank, or starts (after blanks) with a word that is followed by a blank or the end *)
+Lemma words_decomp x :
+  blank x \/
+  exists ws t r, x = ws ++ t ++ r /\ blank ws /\ solid t /\ t <> [] /\ next_is_space_or_end r = true.
+Proof.
+  induction x as [|c x IH]; [left; constructor|].
+  destruct (is_space c) eqn:Hc.
+  - destruct IH as [Hb|(ws & t & r & -> & Hws & Ht & Hne & Hr)].
+    + left. now constructor.
+    + right. exists (c :: ws), t, r. repeat split; auto. now constructor.
+  - right. destruct IH as [Hb|(ws & t & r & -> & Hws & Ht & Hne & Hr)].
+    + exists [], [c], x. repeat split; auto; try discriminate; try constructor; auto.
+      destruct Hb as [|d x Hd _]; [reflexivity|exact Hd].
+    + destruct ws as [|d ws].
+      * exists [], (c :: t), r. repeat split; auto; try discriminate. now constructor.
+      * exists [], [c], ((d :: ws) ++ t ++ r).
+        split; [reflexivity|]. split; [constructor|]. split; [repeat constructor; exact Hc|].
+        split; [discriminate|]. cbn [app next_is_space_or_end]. now inversion Hws.
+Qed.
+
 (* ====================================================================== *)
 (* 2. the recognisers                                                      *)
 (* ====================================================================== *)
@@ -384,6 +404,119 @@ Proof.
   - cbn [app scan]. rewrite (Hat c (a ++ y) Hc), IH. now destruct (scan here y) as [[[? ?] ?]|].
 Qed.
 
+(* ---- scan_start: the leftmost admitted occurrence of a start marker ---- *)
+Definition flag_after (ok : bool) (a : str) : bool := fold_left (fun _ c => is_space c) a ok.
+
+Lemma start_here_nil : start_here [] = None.
+Proof. reflexivity. Qed.
+
+Lemma scan_start_some x : forall ok b ty r,
+  scan_start ok x = Some (b, ty, r) ->
+  exists y, x = b ++ y /\ start_here y = Some (ty, r) /\ flag_after ok b = true.
+Proof.
+  induction x as [|c x IH]; intros ok b ty r H.
+  - cbn [scan_start] in H. destruct ok; [rewrite start_here_nil in H|]; discriminate.
+  - cbn [scan_start] in H.
+    destruct (if ok then start_here (c :: x) else None) as [[ty' r']|] eqn:E.
+    + injection H as <- <- <-. destruct ok; [|discriminate]. exists (c :: x). auto.
+    + destruct (scan_start (is_space c) x) as [[[b' ty'] r']|] eqn:Es; [|discriminate].
+      injection H as <- <- <-. destruct (IH _ _ _ _ Es) as (y & -> & Hy & Hf).
+      exists y. repeat split; auto.
+Qed.
+
+(* an admitted occurrence is found *)
+Lemma scan_start_occ a : forall ok z,
+  flag_after ok a = true -> start_here z <> None -> scan_start ok (a ++ z) <> None.
+Proof.
+  induction a as [|c a IH]; intros ok z Hf Hz.
+  - cbn [flag_after fold_left] in Hf. subst ok. cbn [app]. destruct z as [|d z]; [now rewrite start_here_nil in Hz|].
+    cbn [scan_start]. destruct (start_here (d :: z)) as [[? ?]|]; [discriminate|congruence].
+  - cbn [app scan_start]. destruct (if ok then start_here (c :: a ++ z) else None) as [[? ?]|]; [discriminate|].
+    specialize (IH (is_space c) z Hf Hz).
+    destruct (scan_start (is_space c) (a ++ z)) as [[[? ?] ?]|]; [discriminate|congruence].
+Qed.
+
+Lemma scan_start_suffix a : forall ok y,
+  scan_start ok (a ++ y) = None -> scan_start (flag_after ok a) y = None.
+Proof.
+  induction a as [|c a IH]; intros ok y H; [exact H|].
+  cbn [app scan_start] in H. destruct (if ok then start_here (c :: a ++ y) else None) as [[? ?]|]; [discriminate|].
+  destruct (scan_start (is_space c) (a ++ y)) as [[[? ?] ?]|] eqn:E; [discriminate|].
+  exact (IH _ _ E).
+Qed.
+
+Lemma scan_start_prefix y : forall ok z,
+  scan_start ok (y ++ z) = None -> scan_start ok y = None.
+Proof.
+  induction y as [|c y IH]; intros ok z H.
+  - cbn [scan_start]. destruct ok; [now rewrite start_here_nil|reflexivity].
+  - cbn [app scan_start] in *.
+    destruct ok.
+    + destruct (start_here (c :: y ++ z)) as [[? ?]|] eqn:E; [discriminate|].
+      assert (Hn : start_here (c :: y) = None).
+      { destruct (start_here (c :: y)) as [[? ?]|] eqn:E'; [|reflexivity]. exfalso.
+        apply (start_here_mono (c :: y) z); [congruence|exact E]. }
+      rewrite Hn. destruct (scan_start (is_space c) (y ++ z)) as [[[? ?] ?]|] eqn:Es; [discriminate|].
+      now rewrite (IH _ _ Es).
+    + destruct (scan_start (is_space c) (y ++ z)) as [[[? ?] ?]|] eqn:Es; [discriminate|].
+      now rewrite (IH _ _ Es).
+Qed.
+
+(* what precedes a text that starts with a blank (or is empty) does not matter *)
+Lemma scan_start_flag x ok1 ok2 :
+  next_is_space_or_end x = true -> scan_start ok1 x = scan_start ok2 x.
+Proof.
+  destruct x as [|c x]; intros H.
+  - cbn [scan_start]. destruct ok1, ok2; now rewrite ?start_here_nil.
+  - cbn [next_is_space_or_end] in H. cbn [scan_start].
+    assert (Hn : start_here (c :: x) = None).
+    { apply start_here_at. intros ->. discriminate H. }
+    destruct ok1, ok2; now rewrite ?Hn.
+Qed.
+
+(* the text before the leftmost admitted occurrence has none *)
+Lemma scan_start_pre x : forall ok b ty r,
+  scan_start ok x = Some (b, ty, r) -> scan_start ok b = None.
+Proof.
+  induction x as [|c x IH]; intros ok b ty r H.
+  - cbn [scan_start] in H. destruct ok; [rewrite start_here_nil in H|]; discriminate.
+  - cbn [scan_start] in H.
+    destruct (if ok then start_here (c :: x) else None) as [[ty' r']|] eqn:E.
+    + injection H as <- <- <-. cbn [scan_start]. destruct ok; [now rewrite start_here_nil|reflexivity].
+    + destruct (scan_start (is_space c) x) as [[[b' ty'] r']|] eqn:Es; [|discriminate].
+      injection H as <- <- <-. destruct (scan_start_some _ _ _ _ _ Es) as (y & -> & _ & _).
+      cbn [scan_start].
+      assert (Hn : (if ok then start_here (c :: b') else None) = None).
+      { destruct ok; [|reflexivity].
+        destruct (start_here (c :: b')) as [[? ?]|] eqn:E'; [|reflexivity]. exfalso.
+        apply (start_here_mono (c :: b') y); [congruence|exact E]. }
+      rewrite Hn. now rewrite (IH _ _ _ _ Es).
+Qed.
+
+Lemma flag_after_blank ok b : blank b -> b <> [] -> flag_after ok b = true.
+Proof.
+  intros H. revert ok. induction H as [|c b Hc Hb IH]; intros ok Hne; [congruence|].
+  cbn [flag_after fold_left]. destruct b as [|d b]; [exact Hc|]. apply IH. discriminate.
+Qed.
+
+Lemma flag_after_true_blank b : blank b -> flag_after true b = true.
+Proof. intros H. destruct b; [reflexivity|]. apply flag_after_blank; [exact H|discriminate]. Qed.
+
+Lemma scan_start_skip_blank b : forall ok y,
+  blank b ->
+  scan_start ok (b ++ y) =
+  match scan_start (flag_after ok b) y with Some (b', ty, r) => Some (b ++ b', ty, r) | None => None end.
+Proof.
+  intros ok y H. revert ok. induction H as [|c b Hc _ IH]; intros ok.
+  - cbn [app flag_after fold_left]. now destruct (scan_start ok y) as [[[? ?] ?]|].
+  - cbn [app scan_start].
+    assert (Hn : start_here (c :: b ++ y) = None).
+    { apply start_here_at. intros ->. discriminate Hc. }
+    rewrite Hn. assert ((if ok then @None (str * str) else None) = None) as -> by now destruct ok.
+    rewrite IH. unfold flag_after. cbn [fold_left].
+    match goal with |- context [scan_start ?f y] => destruct (scan_start f y) as [[[? ?] ?]|] end; reflexivity.
+Qed.
+
 (* ---- markers as words ---- *)
 Lemma lower_app a b : lower (a ++ b) = lower a ++ lower b.
 Proof. apply map_app. Qed.
@@ -460,14 +593,29 @@ Proof.
   - unfold typ_ok. apply str_in_spec. unfold lower. now rewrite Hty.
 Qed.
 
-Lemma no_start_tok y :
-  scan start_here y = None -> forall w, In w (words_line y) -> is_start_tok w = false.
+Lemma no_start_tok_gen n : forall x ok,
+  length x <= n -> scan_start ok x = None -> (ok = true \/ next_is_space_or_end x = true) ->
+  forall w, In w (words_line x) -> is_start_tok w = false.
 Proof.
-  intros H w Hin. destruct (is_start_tok w) eqn:E; [|reflexivity]. exfalso.
-  apply (proj1 (scan_none _ _) H). destruct (words_in _ _ Hin) as (a & b & ->).
-  destruct (start_tok_shape _ E) as (ty & -> & Hty).
-  exists a, (start_marker ty ++ b). split; [reflexivity|]. now rewrite start_here_marker.
+  induction n as [|n IH]; intros x ok Hlen Hscan Hor w Hin.
+  - destruct x; [contradiction|simpl in Hlen; lia].
+  - destruct (words_decomp x) as [Hb|(ws & t & r & -> & Hws & Ht & Hne & Hr)].
+    + rewrite (words_blank x Hb) in Hin. contradiction.
+    + rewrite (words_token0 ws t r Hws Hne Ht Hr) in Hin. destruct Hin as [<-|Hin].
+      * destruct (is_start_tok t) eqn:E; [|reflexivity]. exfalso.
+        destruct (start_tok_shape _ E) as (ty & -> & Hty).
+        apply (scan_start_occ ws ok (start_marker ty ++ r)); auto.
+        -- destruct ws as [|c ws]; [|apply flag_after_blank; [exact Hws|discriminate]].
+           cbn [flag_after fold_left]. destruct Hor as [H|H]; [exact H|discriminate H].
+        -- now rewrite start_here_marker.
+      * rewrite app_assoc in Hscan. apply scan_start_suffix in Hscan.
+        apply (IH r _) with (w := w) in Hscan; auto.
+        rewrite !app_length in Hlen. destruct t; [congruence|]. simpl in Hlen. lia.
 Qed.
+
+Lemma no_start_tok y :
+  scan_start true y = None -> forall w, In w (words_line y) -> is_start_tok w = false.
+Proof. intros H. apply (no_start_tok_gen (length y) y true); auto. Qed.
 
 Lemma no_end_tok y :
   scan end_here y = None -> forall w, In w (words_line y) -> is_end_tok w = false.
@@ -503,7 +651,7 @@ Proof.
 Qed.
 
 Lemma lw_none y :
-  scan start_here y = None -> scan end_here y = None -> lw y = words_line y.
+  scan_start true y = None -> scan end_here y = None -> lw y = words_line y.
 Proof. intros Hs He. apply lw_plain_words; [now apply no_start_tok | now apply no_end_tok]. Qed.
 
 (* ---- split_tail_ws ---- *)
@@ -579,13 +727,11 @@ Proof.
 Qed.
 
 Lemma scan_start_at_marker b ty z :
-  blank b -> typ_ok ty -> scan start_here (b ++ start_marker ty ++ z) = Some (b, ty, z).
+  blank b -> typ_ok ty -> scan_start true (b ++ start_marker ty ++ z) = Some (b, ty, z).
 Proof.
-  intros Hb Hty. rewrite (scan_skip start_here b _ start_here_at (blank_no_at b Hb)).
-  assert (E : scan start_here (start_marker ty ++ z) = Some ([], ty, z)).
-  { pose proof (start_here_marker ty z Hty) as Hs. unfold start_marker in *. cbn [app] in *.
-    cbn [scan]. now rewrite Hs. }
-  rewrite E. now rewrite app_nil_r.
+  intros Hb Hty. rewrite (scan_start_skip_blank b true _ Hb), (flag_after_true_blank b Hb).
+  pose proof (start_here_marker ty z Hty) as Hs. unfold start_marker in *. cbn [app] in *.
+  cbn [scan_start]. rewrite Hs. now rewrite app_nil_r.
 Qed.
 
 (* ---- what the global argument needs to know about one clean line ---- *)
@@ -625,8 +771,8 @@ Proof. destruct x; [reflexivity|discriminate]. Qed.
 Lemma end_line_words pre ws e ty r :
   blank ws -> (pre = [] \/ ws <> []) -> lower e = s "end" -> typ_ok ty ->
   next_is_space_or_end r = true ->
-  scan start_here pre = None -> scan end_here pre = None ->
-  scan start_here r = None -> scan end_here r = None ->
+  scan_start true pre = None -> scan end_here pre = None ->
+  scan_start true r = None -> scan end_here r = None ->
   lw (pre ++ ws ++ end_marker e ty ++ r) = words_line pre ++ words_line r.
 Proof.
   intros Hws Hor He Hty Hr Hs1 He1 Hs2 He2. unfold lw.
@@ -637,16 +783,20 @@ Proof.
   fold (lw pre). fold (lw r). now rewrite !lw_none.
 Qed.
 
-Lemma clean_LF x : line_clean x = true -> LF x.
+Lemma is_none_spec {A} (o : option A) : is_none o = true -> o = None.
+Proof. destruct o; [discriminate|reflexivity]. Qed.
+
+Lemma clean_LF x : piece_clean x = true -> LF x.
 Proof.
-  unfold line_clean, LF, adm_search, end_search, start_clean, end_clean.
+  unfold piece_clean, LF, adm_search, end_search, start_clean, end_clean.
   intros H. apply andb_true_iff in H as [Hsc Hec].
-  destruct (scan start_here x) as [[[bS ty] post]|] eqn:ES;
+  destruct (scan_start true x) as [[[bS ty] post]|] eqn:ES;
     destruct (scan end_here x) as [[[bE ety] r]|] eqn:EE.
   - (* start and end marker on the same line *)
     apply andb_true_iff in Hsc as [Hsc HpostS]. apply andb_true_iff in Hsc as [HbS Hnext].
-    apply all_space_blank in HbS.
-    destruct (scan_some _ _ _ _ _ ES) as (y & Hx & Hy & _).
+    apply all_space_blank in HbS. apply is_none_spec in HpostS.
+    rewrite (scan_start_flag post false true Hnext) in HpostS.
+    destruct (scan_start_some _ _ _ _ _ ES) as (y & Hx & Hy & _).
     destruct (start_here_spec _ _ _ Hy) as [-> Hty]. subst x.
     rewrite (stw_blank bS HbS).
     rewrite (scan_end_after_start bS ty post HbS Hty) in EE.
@@ -677,19 +827,18 @@ Proof.
     { apply orb_true_iff in Hstart as [Hemp|Hw].
       - apply is_empty_spec in Hemp. destruct bS; discriminate Hemp.
       - now destruct ws. }
-    destruct (scan start_here r') eqn:ErS; [discriminate|].
-    destruct (scan end_here r') eqn:ErE; [discriminate|].
-    destruct (scan start_here post) eqn:EpS; [discriminate|].
-    repeat split; auto.
+    apply is_none_spec in HrS. apply is_none_spec in HrE.
+    rewrite (scan_start_flag r' false true Hrnext) in HrS.
+    repeat match goal with |- _ /\ _ => split end; auto.
     + (* pre is not blank: it contains '@' *)
       destruct (all_space ((bS ++ start_marker ty) ++ c')) eqn:Ea; [|reflexivity].
       apply all_space_blank in Ea. apply Forall_app in Ea as [Ea _]. apply Forall_app in Ea as [_ Ea].
       inversion Ea as [|? ? Hat _]. discriminate Hat.
     + exists c'. split.
       * rewrite <- app_assoc, (scan_start_at_marker bS ty c' HbS Hty). now rewrite (stw_blank bS HbS).
-      * assert (Hc's : scan start_here c' = None).
-        { rewrite Hpost in EpS. rewrite <- app_assoc in EpS.
-          exact (scan_none_sub start_here [] c' _ start_here_mono EpS). }
+      * assert (Hc's : scan_start true c' = None).
+        { rewrite Hpost in HpostS. rewrite <- app_assoc in HpostS.
+          exact (scan_start_prefix c' true _ HpostS). }
         assert (Hc'e : scan end_here c' = None).
         { pose proof (scan_none_pre end_here _ _ _ _ end_here_mono eq_refl EP) as Hn.
           exact (scan_none_sub end_here [] c' ws end_here_mono Hn). }
@@ -699,15 +848,15 @@ Proof.
         change (start_marker ty :: words_line post) with ([start_marker ty] ++ words_line post).
         rewrite lw_split, lw_start_marker by exact Hty. f_equal. f_equal.
         fold (lw post). rewrite Hpost, <- app_assoc.
-        rewrite (end_line_words c' ws e ety' r' Hws (or_intror Hwsne) He Hety Hrnext Hc's Hc'e ErS ErE).
+        rewrite (end_line_words c' ws e ety' r' Hws (or_intror Hwsne) He Hety Hrnext Hc's Hc'e HrS HrE).
         now rewrite words_lstrip.
   - (* start marker only *)
     apply andb_true_iff in Hsc as [Hsc HpostS]. apply andb_true_iff in Hsc as [HbS Hnext].
-    apply all_space_blank in HbS.
-    destruct (scan_some _ _ _ _ _ ES) as (y & Hx & Hy & _).
+    apply all_space_blank in HbS. apply is_none_spec in HpostS.
+    rewrite (scan_start_flag post false true Hnext) in HpostS.
+    destruct (scan_start_some _ _ _ _ _ ES) as (y & Hx & Hy & _).
     destruct (start_here_spec _ _ _ Hy) as [-> Hty]. subst x.
-    rewrite (stw_blank bS HbS). repeat split; auto.
-    destruct (scan start_here post) eqn:EpS; [discriminate|].
+    rewrite (stw_blank bS HbS). repeat match goal with |- _ /\ _ => split end; auto.
     assert (EpE : scan end_here post = None).
     { rewrite app_assoc in EE. rewrite <- (app_nil_r post) in EE.
       exact (scan_none_sub end_here _ post [] end_here_mono EE). }
@@ -723,21 +872,83 @@ Proof.
     cbn [fst snd] in *.
     apply andb_true_iff in Hec as [Hec HrS]. apply andb_true_iff in Hec as [Hec HrE].
     apply andb_true_iff in Hec as [Hstart Hrnext].
-    destruct (scan start_here r) eqn:ErS; [discriminate|].
-    destruct (scan end_here r) eqn:ErE; [discriminate|].
+    apply is_none_spec in HrS. apply is_none_spec in HrE.
+    rewrite (scan_start_flag r false true Hrnext) in HrS.
     assert (Hor : pre = [] \/ ws <> []).
     { apply orb_true_iff in Hstart as [Hemp|Hw].
       - apply is_empty_spec in Hemp. left. now destruct pre.
       - right. now destruct ws. }
-    assert (HpS : scan start_here pre = None).
-    { rewrite <- app_assoc in ES. exact (scan_none_sub start_here [] pre _ start_here_mono ES). }
+    assert (HpS : scan_start true pre = None).
+    { rewrite <- app_assoc in ES. exact (scan_start_prefix pre true _ ES). }
     assert (HpE : scan end_here pre = None).
     { pose proof (scan_none_pre end_here _ _ _ _ end_here_mono eq_refl EE) as Hn.
       exact (scan_none_sub end_here [] pre ws end_here_mono Hn). }
     rewrite <- app_assoc.
-    rewrite (end_line_words pre ws e ety r Hws Hor He Hety Hrnext HpS HpE ErS ErE).
+    rewrite (end_line_words pre ws e ety r Hws Hor He Hety Hrnext HpS HpE HrS HrE).
     now rewrite words_lstrip.
   - now apply lw_none.
+Qed.
+
+(* ---- _split_leading_text keeps the words ---- *)
+Lemma lstrip_split x : exists w, blank w /\ x = w ++ lstrip x.
+Proof.
+  induction x as [|c x (w & Hw & IH)]; [exists []; split; [constructor|reflexivity]|].
+  cbn [lstrip]. destruct (is_space c) eqn:E.
+  - exists (c :: w). split; [now constructor|]. cbn [app]. now f_equal.
+  - exists []. split; [constructor|reflexivity].
+Qed.
+
+Lemma lead_ws_blank x : blank (lead_ws x).
+Proof.
+  unfold lead_ws. destruct (lstrip_split x) as (w & Hw & E).
+  rewrite E at 1 3. rewrite app_length, Nat.add_sub, firstn_app, Nat.sub_diag, firstn_all. cbn [firstn].
+  now rewrite app_nil_r.
+Qed.
+
+Lemma stw_app_blank a w : blank w ->
+  split_tail_ws (a ++ w) = (fst (split_tail_ws a), snd (split_tail_ws a) ++ w).
+Proof.
+  intros Hw. induction a as [|c a IH].
+  - cbn [app]. now rewrite (stw_blank w Hw).
+  - cbn [app split_tail_ws]. rewrite IH. destruct (split_tail_ws a) as [p v]. cbn [fst snd].
+    destruct p; [destruct (is_space c)|]; reflexivity.
+Qed.
+
+(* a non-empty text before the match is followed by at least one blank (the look-behind) *)
+Lemma adm_search_pretext x c pre ind ty post :
+  adm_search x = Some (c :: pre, ind, ty, post) ->
+  x = (c :: pre) ++ ind ++ start_marker ty ++ post /\ blank ind /\ ind <> [].
+Proof.
+  unfold adm_search. destruct (scan_start true x) as [[[b ty'] post']|] eqn:ES; [|discriminate].
+  destruct (split_tail_ws b) as [p w] eqn:Eb. intros H. injection H as -> -> -> ->.
+  destruct (scan_start_some _ _ _ _ _ ES) as (y & -> & Hy & Hf).
+  destruct (start_here_spec _ _ _ Hy) as [-> _]. destruct (stw_spec _ _ _ Eb) as [-> Hw].
+  split; [now rewrite <- app_assoc|]. split; [exact Hw|]. intros ->. rewrite app_nil_r in *.
+  (* the last character of c :: pre would be a blank, so the trailing blank run is not empty *)
+  destruct (exists_last (l := c :: pre) ltac:(discriminate)) as (q & d & Eq). rewrite Eq in *.
+  assert (Hd : is_space d = true).
+  { clear -Hf. unfold flag_after in Hf. rewrite fold_left_app in Hf. exact Hf. }
+  rewrite (stw_app_blank q [d]) in Eb by (repeat constructor; exact Hd).
+  injection Eb as _ Eb. destruct (snd (split_tail_ws q)); discriminate Eb.
+Qed.
+
+Lemma split_line_words x : flat_map lw (split_line x) = lw x.
+Proof.
+  unfold split_line. destruct (adm_search x) as [[[[p ind] ty] post]|] eqn:E; [|cbn; apply app_nil_r].
+  destruct p as [|c pre]; [cbn; apply app_nil_r|].
+  destruct (adm_search_pretext _ _ _ _ _ _ E) as (Hx & Hind & Hne).
+  cbn [flat_map]. rewrite app_nil_r. unfold lw. rewrite <- lw_split. f_equal. f_equal.
+  change (lead_ws (c :: pre) ++ at_ch :: ty ++ post) with (lead_ws (c :: pre) ++ start_marker ty ++ post).
+  rewrite (words_blank_app _ _ (lead_ws_blank (c :: pre))). rewrite Hx.
+  destruct ind as [|d ind]; [congruence|]. inversion Hind as [|? ? Hd Hind']; subst.
+  change ((d :: ind) ++ start_marker ty ++ post) with (d :: ind ++ start_marker ty ++ post).
+  rewrite (words_app_sp (c :: pre) d _ Hd). now rewrite (words_blank_app _ _ Hind').
+Qed.
+
+Lemma split_words l : spec_words (split_leading_text l) = spec_words l.
+Proof.
+  rewrite !spec_words_flat. unfold split_leading_text. induction l as [|x l IH]; [reflexivity|].
+  cbn [flat_map]. now rewrite flat_map_app, split_line_words, IH.
 Qed.
 
 (* ====================================================================== *)
@@ -778,9 +989,6 @@ Qed.
 Lemma reassoc {A} (a : list A) (x : A) (m : list A) (z : list A) : (a ++ x :: m) ++ z = a ++ x :: m ++ z.
 Proof. now rewrite <- app_assoc. Qed.
 
-Definition indent_hd (l : list str) : list str :=
-  match l with [] => [] | x :: r => indent1 x :: r end.
-
 Lemma indent_range_zero l : forall a, indent_range a 0 l = l.
 Proof. destruct l; reflexivity. Qed.
 
@@ -804,11 +1012,8 @@ Proof.
   cbn [length Nat.min indent_range]. destruct a; now rewrite IH.
 Qed.
 
-Lemma indent_range_one l : indent_range 0 1 l = indent_hd l.
-Proof. destruct l as [|x l]; [reflexivity|]. cbn [indent_range indent_hd]. now rewrite indent_range_zero. Qed.
-
-Lemma indent_range_two x l : indent_range 0 2 (x :: l) = indent1 x :: indent_hd l.
-Proof. cbn [indent_range]. now rewrite indent_range_one. Qed.
+Lemma indent_range_one x l : indent_range 0 1 (x :: l) = indent1 x :: l.
+Proof. cbn [indent_range]. now rewrite indent_range_zero. Qed.
 
 (* the range (length p0, length p0 + length m + k) of p0 ++ m ++ z *)
 Lemma indent_range_block p0 m k z :
@@ -826,46 +1031,34 @@ Definition title_block (ind ty post : str) : list str :=
 Definition end_keep (pre : str) : list str := if all_space pre then [] else [pre].
 Definition end_extra (epost : str) : list str := match epost with [] => [] | _ => [[]; epost] end.
 
-Lemma indent_hd_extra epost r :
-  indent_hd (end_extra epost ++ r) = match epost with [] => indent_hd r | _ => end_extra epost ++ r end.
-Proof. destruct epost; reflexivity. Qed.
-
 Lemma indent_range_le l : forall a b, b <= a -> indent_range a b l = l.
 Proof.
   induction l as [|x l IH]; intros a b H; [reflexivity|]. destruct b as [|b]; [reflexivity|].
   destruct a as [|a]; [lia|]. cbn [indent_range]. rewrite IH by lia. reflexivity.
 Qed.
 
-(* range (start+1, e+1) where e is the index of the first line of z *)
+(* range (start+1, e) where e is the index of the first line of z: exactly the lines m *)
 Lemma indent_range_IR1 a1 ls m z :
-  indent_range (S (length a1)) (S (length (a1 ++ ls :: m))) (a1 ++ ls :: m ++ z)
-  = a1 ++ ls :: map indent1 m ++ indent_hd z.
+  indent_range (S (length a1)) (length (a1 ++ ls :: m)) (a1 ++ ls :: m ++ z)
+  = a1 ++ ls :: map indent1 m ++ z.
+Proof.
+  replace (S (length a1)) with (length (a1 ++ [ls])) by (rewrite app_length; simpl; lia).
+  replace (length (a1 ++ ls :: m)) with (length (a1 ++ [ls]) + length m + 0)
+    by (rewrite !app_length; simpl; lia).
+  replace (a1 ++ ls :: m ++ z) with ((a1 ++ [ls]) ++ m ++ z) by app_norm.
+  rewrite indent_range_block, indent_range_zero. app_norm.
+Qed.
+
+(* the same with one more line (the text kept before an end marker) *)
+Lemma indent_range_IR2 a1 ls m x z :
+  indent_range (S (length a1)) (S (length (a1 ++ ls :: m))) (a1 ++ ls :: m ++ x :: z)
+  = a1 ++ ls :: map indent1 m ++ indent1 x :: z.
 Proof.
   replace (S (length a1)) with (length (a1 ++ [ls])) by (rewrite app_length; simpl; lia).
   replace (S (length (a1 ++ ls :: m))) with (length (a1 ++ [ls]) + length m + 1)
     by (rewrite !app_length; simpl; lia).
-  replace (a1 ++ ls :: m ++ z) with ((a1 ++ [ls]) ++ m ++ z) by app_norm.
-  rewrite indent_range_block, indent_range_one. app_norm.
-Qed.
-
-Lemma indent_range_IR2 a1 ls m x z :
-  indent_range (S (length a1)) (S (S (length (a1 ++ ls :: m)))) (a1 ++ ls :: m ++ x :: z)
-  = a1 ++ ls :: map indent1 m ++ indent1 x :: indent_hd z.
-Proof.
-  replace (S (length a1)) with (length (a1 ++ [ls])) by (rewrite app_length; simpl; lia).
-  replace (S (S (length (a1 ++ ls :: m)))) with (length (a1 ++ [ls]) + length m + 2)
-    by (rewrite !app_length; simpl; lia).
   replace (a1 ++ ls :: m ++ x :: z) with ((a1 ++ [ls]) ++ m ++ x :: z) by app_norm.
-  rewrite indent_range_block, indent_range_two. app_norm.
-Qed.
-
-Lemma indent_range_IR3 a1 ls z :
-  indent_range (S (length a1)) (S (S (length a1))) (a1 ++ ls :: z) = a1 ++ ls :: indent_hd z.
-Proof.
-  replace (S (length a1)) with (length (a1 ++ [ls]) + 0) at 1 by (rewrite app_length; simpl; lia).
-  replace (S (S (length a1))) with (length (a1 ++ [ls]) + 1) by (rewrite app_length; simpl; lia).
-  replace (a1 ++ ls :: z) with ((a1 ++ [ls]) ++ z) by app_norm.
-  rewrite indent_range_skip, indent_range_one. app_norm.
+  rewrite indent_range_block, indent_range_one. app_norm.
 Qed.
 
 (* the start line is rewritten last *)
@@ -889,14 +1082,24 @@ Proof.
   destruct post as [|c post]; [reflexivity|]. now rewrite insert_at_S.
 Qed.
 
-(* end line further down, without an end marker on it *)
-Lemma step_far_noend ty a1 ls m le r p ind ty' post :
-  adm_search ls = Some (p, ind, ty', post) -> end_search le = None ->
-  step (ty, length a1, length (a1 ++ ls :: m)) (a1 ++ ls :: m ++ le :: r)
-  = Ok (a1 ++ title_block ind ty post ++ map indent1 m ++ indent1 le :: r).
+Lemma nth_error_end {A} (a : list A) : nth_error a (length a) = None.
+Proof. apply nth_error_None. lia. Qed.
+
+(* the first line after the box carries no end marker (or there is no such line): the lines m
+   strictly inside the box are indented and nothing else changes *)
+Definition no_end_at (rest : list str) : Prop :=
+  match rest with [] => True | le :: _ => end_search le = None end.
+
+Lemma step_far_noend ty a1 ls m rest p ind ty' post :
+  adm_search ls = Some (p, ind, ty', post) -> no_end_at rest ->
+  step (ty, length a1, length (a1 ++ ls :: m)) (a1 ++ ls :: m ++ rest)
+  = Ok (a1 ++ title_block ind ty post ++ map indent1 m ++ rest).
 Proof.
-  intros HS HE. unfold step. rewrite <- (reassoc a1 ls m (le :: r)).
-  rewrite nth_error_mid, HE, indent_range_clip, reassoc, indent_range_IR1. cbn [indent_hd].
+  intros HS HE. unfold step. rewrite <- (reassoc a1 ls m rest).
+  assert (Hend : match nth_error ((a1 ++ ls :: m) ++ rest) (length (a1 ++ ls :: m)) with
+                 | Some le => end_search le | None => None end = None).
+  { destruct rest as [|le r]; [now rewrite app_nil_r, nth_error_end|now rewrite nth_error_mid]. }
+  rewrite Hend, indent_range_clip, reassoc, indent_range_IR1.
   exact (step_finish ty a1 ls _ p ind ty' post HS).
 Qed.
 
@@ -905,7 +1108,7 @@ Lemma step_far_end ty a1 ls m le r p ind ty' post pre ety epost :
   adm_search ls = Some (p, ind, ty', post) -> end_search le = Some (pre, ety, epost) ->
   step (ty, length a1, length (a1 ++ ls :: m)) (a1 ++ ls :: m ++ le :: r)
   = Ok (a1 ++ title_block ind ty post ++ map indent1 m ++ map indent1 (end_keep pre)
-           ++ indent_hd (end_extra epost ++ r)).
+           ++ end_extra epost ++ r).
 Proof.
   intros HS HE. unfold step. rewrite <- (reassoc a1 ls m (le :: r)).
   rewrite nth_error_mid, HE. unfold end_keep, end_extra.
@@ -923,25 +1126,17 @@ Proof.
 Qed.
 
 (* box that starts and ends on the same line *)
-Lemma step_same_noend ty a1 ls r p ind ty' post :
-  adm_search ls = Some (p, ind, ty', post) -> end_search ls = None ->
-  step (ty, length a1, length a1) (a1 ++ ls :: r) = Ok (a1 ++ title_block ind ty post ++ r).
-Proof.
-  intros HS HE. unfold step. rewrite nth_error_mid, HE, indent_range_clip.
-  rewrite indent_range_le by lia. exact (step_finish ty a1 ls _ p ind ty' post HS).
-Qed.
-
 Lemma step_same_end ty a1 ls r pre ety epost p ind ty' postS :
   end_search ls = Some (pre, ety, epost) -> all_space pre = false ->
   adm_search pre = Some (p, ind, ty', postS) ->
   step (ty, length a1, length a1) (a1 ++ ls :: r)
-  = Ok (a1 ++ title_block ind ty postS ++ indent_hd (end_extra epost ++ r)).
+  = Ok (a1 ++ title_block ind ty postS ++ end_extra epost ++ r).
 Proof.
   intros HE Hb HS. unfold step. rewrite nth_error_mid, HE. unfold end_extra.
   destruct epost as [|c epost].
-  - rewrite set_at_mid, Hb, indent_range_clip, indent_range_IR3.
+  - rewrite set_at_mid, Hb, indent_range_clip, indent_range_le by lia.
     exact (step_finish ty a1 pre _ p ind ty' postS HS).
-  - rewrite insert_at_1, insert_at_2, set_at_mid, Hb, indent_range_clip, indent_range_IR3.
+  - rewrite insert_at_1, insert_at_2, set_at_mid, Hb, indent_range_clip, indent_range_le by lia.
     exact (step_finish ty a1 pre _ p ind ty' postS HS).
 Qed.
 
@@ -954,7 +1149,7 @@ Definition lift {A} (acc : list A) (r : result (list A)) : result (list A) :=
 (* _find_admonitions, emitting the records in order instead of appending to an accumulator *)
 Fixpoint find_emit (idx : nat) (cur : option cur_t) (l : list str) : result (list adm) :=
   match l with
-  | [] => Ok (match cur with Some c => [close_at c (idx - 1)] | None => [] end)
+  | [] => Ok (match cur with Some c => [close_at c idx] | None => [] end)
   | line :: rest =>
     let '(em, cur1) :=
       match adm_search line with
@@ -1041,9 +1236,6 @@ Proof. destruct x as [|c x]; [reflexivity|]. unfold indent1. apply words_blank_a
 
 Lemma words_map_indent1 m : words (map indent1 m) = words m.
 Proof. induction m as [|x m IH]; [reflexivity|]. cbn [map]. now rewrite !words_cons, words_indent1, IH. Qed.
-
-Lemma words_indent_hd l : words (indent_hd l) = words l.
-Proof. destruct l as [|x l]; [reflexivity|]. cbn [indent_hd]. now rewrite !words_cons, words_indent1. Qed.
 
 Lemma words_end_keep pre : words (map indent1 (end_keep pre)) = words_line pre.
 Proof.
@@ -1146,55 +1338,28 @@ Proof. reflexivity. Qed.
 
 Ltac wsolve :=
   repeat (rewrite words_app || rewrite words_end_keep || rewrite words_map_indent1 || rewrite words_cons
-          || rewrite words_indent1 || rewrite words_indent_hd || rewrite words_end_extra);
+          || rewrite words_indent1 || rewrite words_end_extra);
   cbn [indent1 words_line app words flat_map]; rewrite <- ?app_assoc; cbn [app]; rewrite ?app_nil_r; reflexivity.
 
 Lemma reassoc2 {A} (a : list A) x m z w : (a ++ x :: m ++ z) ++ w = a ++ x :: m ++ z ++ w.
 Proof. app_norm. Qed.
 
-(* closing the open admonition when the line at its end index carries no end marker: the end
-   index is an earlier empty line, or the next line [y] (a title line, or the end of the text) *)
-Lemma close_noend a1 ls a2 ty eo ind post y T :
-  open_ok a1 ls a2 ty eo ind post -> end_search y = None ->
+(* closing the open admonition when the first line after it carries no end marker: that line is
+   an earlier empty line, or the first line of [rest] (a title line), or there is none *)
+Lemma close_noend a1 ls a2 ty eo ind post rest :
+  open_ok a1 ls a2 ty eo ind post -> no_end_at rest ->
   exists T',
     step (ty, length a1, match eo with Some e0 => e0 | None => length (a1 ++ ls :: a2) end)
-         ((a1 ++ ls :: a2) ++ y :: T) = Ok (a1 ++ title_block ind ty post ++ T')
-    /\ words T' = words a2 ++ words (y :: T).
+         ((a1 ++ ls :: a2) ++ rest) = Ok (a1 ++ title_block ind ty post ++ T')
+    /\ words T' = words a2 ++ words rest.
 Proof.
   intros [HS HE Hi Hty Hlw Hpl Heo] Hy. destruct eo as [e0|].
   - destruct Heo as (m & m2 & -> & ->). rewrite reassoc2. cbn [app].
-    rewrite (step_far_noend ty a1 ls m _ _ [] ind ty post HS end_search_nil).
-    eexists. split; [reflexivity|].
-    wsolve.
+    rewrite (step_far_noend ty a1 ls m _ [] ind ty post HS); [|exact end_search_nil].
+    eexists. split; [reflexivity|]. wsolve.
   - rewrite reassoc.
-    rewrite (step_far_noend ty a1 ls a2 y T [] ind ty post HS Hy).
-    eexists. split; [reflexivity|].
-    wsolve.
-Qed.
-
-(* the same at the end of the text *)
-Lemma close_eof a1 ls a2 ty eo ind post :
-  open_ok a1 ls a2 ty eo ind post ->
-  exists T',
-    step (close_at (ty, length a1, eo) (length (a1 ++ ls :: a2) - 1)) (a1 ++ ls :: a2)
-    = Ok (a1 ++ title_block ind ty post ++ T')
-    /\ words T' = words a2.
-Proof.
-  intros [HS HE Hi Hty Hlw Hpl Heo]. unfold close_at. destruct eo as [e0|].
-  - destruct Heo as (m & m2 & -> & ->).
-    rewrite (step_far_noend ty a1 ls m _ _ [] ind ty post HS end_search_nil).
-    eexists. split; [reflexivity|].
-    wsolve.
-  - destruct a2 as [|z a2] using rev_ind.
-    + replace (length (a1 ++ [ls]) - 1) with (length a1) by (rewrite app_length; simpl; lia).
-      rewrite (step_same_noend ty a1 ls [] [] ind ty post HS HE).
-      exists []. split; [reflexivity|reflexivity].
-    + clear IHa2. apply Forall_app in Hpl as [Hpl Hz]. inversion Hz as [|? ? [_ Hze] _]; subst.
-      replace (length (a1 ++ ls :: a2 ++ [z]) - 1) with (length (a1 ++ ls :: a2))
-        by (repeat (rewrite app_length || cbn [length]); lia).
-      rewrite (step_far_noend ty a1 ls a2 z [] [] ind ty post HS Hze).
-      eexists. split; [reflexivity|].
-      wsolve.
+    rewrite (step_far_noend ty a1 ls a2 rest [] ind ty post HS Hy).
+    eexists. split; [reflexivity|]. wsolve.
 Qed.
 
 (* closing at a line [x] that carries the end marker *)
@@ -1207,8 +1372,7 @@ Lemma close_end a1 ls a2 ty eo ind post x pre ety epost T :
 Proof.
   intros [HS HE Hi Hty Hlw Hpl Heo] Hx. rewrite reassoc.
   rewrite (step_far_end ty a1 ls a2 x T [] ind ty post pre ety epost HS Hx).
-  eexists. split; [reflexivity|].
-  wsolve.
+  eexists. split; [reflexivity|]. wsolve.
 Qed.
 
 Definition starts_titled (T : list str) : Prop := exists y T', T = y :: T' /\ titled y.
@@ -1248,9 +1412,9 @@ Proof.
   induction r as [|x r IH]; intros a cur adms HLF Hfind.
   - (* end of the text *)
     cbn [find_emit] in Hfind. injection Hfind as <-. destruct cur as [[[ty st] eo]|]; cbn [post_cond].
-    + intros a1 ls a2 ind post -> -> Hopen. rewrite app_nil_r. cbn [process_rec bind].
-      destruct (close_eof a1 ls a2 ty eo ind post Hopen) as (T' & Hs & Hw).
-      exists T'. split; [exact Hs|]. cbn [flat_map]. now rewrite Hw, app_nil_r.
+    + intros a1 ls a2 ind post -> -> Hopen. cbn [process_rec bind]. unfold close_at.
+      destruct (close_noend a1 ls a2 ty eo ind post [] Hopen I) as (T' & Hs & Hw).
+      exists T'. split; [exact Hs|]. cbn [flat_map]. exact Hw.
     + exists []. repeat split; auto.
   - inversion HLF as [|? ? Hx HLF']; subst. cbn [find_emit] in Hfind. unfold LF in Hx.
     assert (Hlen : S (length a) = length (a ++ [x])) by (rewrite app_length; simpl; lia).
@@ -1269,17 +1433,17 @@ Proof.
           rewrite <- Happ in Hp0; rewrite <- (Happ T0) in Hp0; eauto 10. }
       destruct Hcommon as (adms0 & T0 & em & -> & Hem & Hp0 & Hw0).
       pose proof (step_same_end ty' a x T0 pre ety epost [] ind' ty' postS EE Hpre HSpre) as Hstep.
-      set (T1 := indent_hd (end_extra epost ++ T0)) in *.
+      set (T1 := end_extra epost ++ T0) in *.
       assert (Hw1 : words (title_block ind' ty' postS ++ T1) = lw x ++ flat_map lw r).
       { rewrite words_app, words_title_block by assumption. subst T1.
-        rewrite words_indent_hd, words_app, words_end_extra, Hw0, Hlwx. now rewrite <- !app_assoc. }
+        rewrite words_app, words_end_extra, Hw0, Hlwx. now rewrite <- !app_assoc. }
       destruct cur as [[[cty cst] ceo]|]; cbn [post_cond]; subst em.
       * intros a1 ls a2 ind post -> -> Hopen.
         rewrite !process_rec_app, Hp0. cbn [process_rec bind app]. rewrite Hstep. cbn [bind].
         unfold close_at.
         unfold title_block at 1. cbn [app].
         match goal with |- context [ (a1 ++ ls :: a2) ++ title_line ind' ty' :: ?TT ] =>
-          destruct (close_noend a1 ls a2 cty ceo ind post (title_line ind' ty') TT Hopen
+          destruct (close_noend a1 ls a2 cty ceo ind post (title_line ind' ty' :: TT) Hopen
                       (titled_end _ (ex_intro _ ind' (ex_intro _ ty' (conj Hi' (conj Hty' eq_refl))))))
             as (T' & Hs & Hw) end.
         exists T'. split; [exact Hs|]. rewrite Hw. f_equal. exact Hw1.
@@ -1311,7 +1475,7 @@ Proof.
         rewrite process_rec_app, Hp0. cbn [process_rec bind app]. unfold close_at.
         unfold title_block at 1. cbn [app].
         match goal with |- context [ (a1 ++ ls :: a2) ++ title_line ind' ty' :: ?TT ] =>
-          destruct (close_noend a1 ls a2 cty ceo ind post (title_line ind' ty') TT Hopen
+          destruct (close_noend a1 ls a2 cty ceo ind post (title_line ind' ty' :: TT) Hopen
                       (titled_end _ (ex_intro _ ind' (ex_intro _ ty' (conj Hi' (conj Hty' eq_refl))))))
             as (T' & Hs & Hw) end.
         exists T'. split; [exact Hs|]. rewrite Hw. f_equal. exact Hw1.
@@ -1360,36 +1524,44 @@ Qed.
 (* ====================================================================== *)
 (* 7. theorems                                                             *)
 (* ====================================================================== *)
-Lemma admon_ok_LF l : admon_ok l = true -> Forall LF l.
+Lemma admon_ok_LF l : admon_ok l = true -> Forall LF (split_leading_text l).
 Proof.
-  unfold admon_ok. rewrite forallb_forall. intros H. apply Forall_forall. intros x Hx.
-  apply clean_LF. now apply H.
+  unfold admon_ok, split_leading_text. rewrite forallb_forall. intros H. apply Forall_forall.
+  intros y Hy. apply in_flat_map in Hy as (x & Hx & Hy). apply clean_LF.
+  specialize (H x Hx). unfold line_clean in H. rewrite forallb_forall in H. now apply H.
 Qed.
 
 Lemma run_unfold l :
-  run l = bind (find_emit 0 None l) (fun adms => process_rec adms l).
+  run_passes l = bind (find_emit 0 None l) (fun adms => process_rec adms l).
 Proof.
-  unfold run. rewrite find_admonitions_emit. destruct (find_emit 0 None l); simpl; [|reflexivity].
+  unfold run_passes. rewrite find_admonitions_emit. destruct (find_emit 0 None l); simpl; [|reflexivity].
   apply process_admonitions_rec.
 Qed.
 
-(* clean lines: when the first pass accepts the text, the second pass succeeds and the words
-   of the result are exactly the specified ones *)
-Theorem admon_total l adms :
-  admon_ok l = true -> find_admonitions l = Ok adms ->
-  exists out, run l = Ok out /\ words out = spec_words l.
+(* the two passes on clean lines: when the first pass accepts the text, the second pass succeeds
+   and the words of the result are exactly the specified ones *)
+Lemma passes_total l adms :
+  Forall LF l -> find_admonitions l = Ok adms ->
+  exists out, run_passes l = Ok out /\ words out = flat_map lw l.
 Proof.
   intros Hok Hf. rewrite find_admonitions_emit in Hf. rewrite run_unfold, Hf. cbn [bind].
-  destruct (main l [] None adms (admon_ok_LF l Hok) Hf) as (T & Hp & Hw & _).
-  exists T. split; [exact Hp|]. now rewrite spec_words_flat.
+  destruct (main l [] None adms Hok Hf) as (T & Hp & Hw & _). now exists T.
+Qed.
+
+Theorem admon_total l adms :
+  admon_ok l = true -> find_admonitions (split_leading_text l) = Ok adms ->
+  exists out, run l = Ok out /\ words out = spec_words l.
+Proof.
+  intros Hok Hf. destruct (passes_total _ _ (admon_ok_LF l Hok) Hf) as (out & Hr & Hw).
+  exists out. split; [exact Hr|]. now rewrite Hw, <- spec_words_flat, split_words.
 Qed.
 
 Theorem admon_words l out :
   admon_ok l = true -> run l = Ok out -> words out = spec_words l.
 Proof.
-  intros Hok Hrun. destruct (find_admonitions l) as [adms|e] eqn:Hf.
+  intros Hok Hrun. destruct (find_admonitions (split_leading_text l)) as [adms|e] eqn:Hf.
   - destruct (admon_total l adms Hok Hf) as (out' & Hr & Hw). congruence.
-  - unfold run in Hrun. rewrite Hf in Hrun. discriminate.
+  - unfold run, run_passes in Hrun. rewrite Hf in Hrun. discriminate.
 Qed.
 
 (* ---- errors ---- *)
@@ -1411,9 +1583,9 @@ Qed.
 Theorem admon_errors l e :
   admon_ok l = true -> run l = Err e -> e = EEndNoStart \/ e = ETypeMismatch.
 Proof.
-  intros Hok Hrun. destruct (find_admonitions l) as [adms|e'] eqn:Hf.
+  intros Hok Hrun. destruct (find_admonitions (split_leading_text l)) as [adms|e'] eqn:Hf.
   - destruct (admon_total l adms Hok Hf) as (out & Hr & _). congruence.
-  - unfold run in Hrun. rewrite Hf in Hrun. cbn [bind] in Hrun. injection Hrun as <-.
+  - unfold run, run_passes in Hrun. rewrite Hf in Hrun. cbn [bind] in Hrun. injection Hrun as <-.
     rewrite find_admonitions_emit in Hf. eapply find_emit_errors; eauto.
 Qed.
 
@@ -1439,98 +1611,91 @@ Proof.
     now destruct (find_emit (S i + length M) (Some (ty, st, eo')) r).
 Qed.
 
+(* lines without a start marker, or with nothing before it, are not split *)
+Lemma split_line_none x : adm_search x = None -> split_line x = [x].
+Proof. unfold split_line. now intros ->. Qed.
+Lemma split_line_nopre x ind ty post : adm_search x = Some ([], ind, ty, post) -> split_line x = [x].
+Proof. unfold split_line. now intros ->. Qed.
+
+Lemma split_plain P R : Forall plain P -> split_leading_text (P ++ R) = P ++ split_leading_text R.
+Proof.
+  intros H. induction H as [|x P [HS _] _ IH]; [reflexivity|].
+  unfold split_leading_text in *. cbn [app flat_map]. now rewrite (split_line_none x HS), IH.
+Qed.
+
+Lemma split_cons x R : split_line x = [x] -> split_leading_text (x :: R) = x :: split_leading_text R.
+Proof. intros H. unfold split_leading_text. cbn [flat_map]. now rewrite H. Qed.
+
 (* an end marker with no box open raises *)
 Theorem end_without_start P x R :
   Forall plain P -> adm_search x = None -> end_search x <> None ->
   run (P ++ x :: R) = Err EEndNoStart.
 Proof.
-  intros HP HS HE. rewrite run_unfold, find_emit_plain_none by assumption. cbn [find_emit].
+  intros HP HS HE. unfold run. rewrite (split_plain P _ HP), (split_cons x R (split_line_none x HS)).
+  rewrite run_unfold, find_emit_plain_none by assumption. cbn [find_emit].
   rewrite HS. destruct (end_search x) as [[[pre ety] epost]|]; [reflexivity|congruence].
 Qed.
 
 (* an end marker of another type than the open box raises *)
-Theorem end_type_mismatch P st M x R p ind ty post pre ety epost :
-  Forall plain P -> adm_search st = Some (p, ind, ty, post) -> end_search st = None ->
+Theorem end_type_mismatch P st M x R ind ty post pre ety epost :
+  Forall plain P -> adm_search st = Some ([], ind, ty, post) -> end_search st = None ->
   Forall plain M -> adm_search x = None -> end_search x = Some (pre, ety, epost) ->
   lower ety <> lower ty ->
   run (P ++ st :: M ++ x :: R) = Err ETypeMismatch.
 Proof.
-  intros HP HS HE HM HSx HEx Hne. rewrite run_unfold, find_emit_plain_none by assumption.
+  intros HP HS HE HM HSx HEx Hne. unfold run.
+  rewrite (split_plain P _ HP), (split_cons st _ (split_line_nopre st _ _ _ HS)), (split_plain M _ HM),
+    (split_cons x R (split_line_none x HSx)).
+  rewrite run_unfold, find_emit_plain_none by assumption.
   cbn [find_emit]. rewrite HS, HE.
-  match goal with |- context [find_emit ?i (Some (ty, ?s, ?e)) (M ++ x :: R)] =>
-    destruct (find_emit_plain_some M i ty s e (x :: R) HM) as (eo' & ->) end.
+  match goal with |- context [find_emit ?i (Some (ty, ?s, ?e)) (M ++ x :: ?R')] =>
+    destruct (find_emit_plain_some M i ty s e (x :: R') HM) as (eo' & ->) end.
   cbn [find_emit]. rewrite HSx, HEx.
   assert (str_eqb (lower ety) (lower ty) = false) as -> by now apply str_eqb_neq.
   reflexivity.
 Qed.
 
-(* ---- the confirmed defect: text before "@type" on the same line is discarded ---- *)
-Definition start_clean_pre (x : str) : bool :=
-  match scan start_here x with
-  | None => true
-  | Some (b, _, post) =>
-    next_is_space_or_end post && match scan start_here post with None => true | Some _ => false end
-  end.
-
-Lemma start_clean_split x : start_clean x = start_clean_pre x && negb (pretext_region x).
-Proof.
-  unfold start_clean, start_clean_pre, pretext_region.
-  destruct (scan start_here x) as [[[b ty] post]|]; [|reflexivity].
-  rewrite negb_involutive. destruct (all_space b); simpl; [now rewrite andb_true_r|].
-  now rewrite andb_false_r.
-Qed.
-
-(* the full statement: markers are whole words, a start marker may be preceded by text *)
-Definition admon_words_statement : Prop :=
-  forall l out,
-    forallb (fun x => start_clean_pre x && end_clean x) l = true ->
-    run l = Ok out -> words out = spec_words l.
-
-Theorem admon_words_partial l out :
-  forallb (fun x => start_clean_pre x && end_clean x) l = true ->
-  existsb pretext_region l = false ->
-  run l = Ok out -> words out = spec_words l.
-Proof.
-  intros H1 H2. apply admon_words. unfold admon_ok. apply forallb_forall. intros x Hx.
-  unfold line_clean. rewrite start_clean_split.
-  rewrite forallb_forall in H1. specialize (H1 x Hx). apply andb_true_iff in H1 as [-> ->].
-  assert (pretext_region x = false) as ->.
-  { destruct (pretext_region x) eqn:E; [|reflexivity].
-    assert (existsb pretext_region l = true) by (apply existsb_exists; eauto). congruence. }
-  reflexivity.
-Qed.
-
+(* ---- the former defect doc-text-before-note-dropped: text before "@type" is kept ---- *)
 Definition pretext_witness : list str := [s "alpha beta @note gamma"].
 
-Theorem refuted_pretext :
-  forallb (fun x => start_clean_pre x && end_clean x) pretext_witness = true /\
-  existsb pretext_region pretext_witness = true /\
-  run pretext_witness = Ok [s " @note Note"; s "      gamma"] /\
-  spec_words pretext_witness = [s "alpha"; s "beta"; s "@note"; s "Note"; s "gamma"] /\
-  words [s " @note Note"; s "      gamma"] = [s "@note"; s "Note"; s "gamma"].
+Theorem pretext_fixed :
+  admon_ok pretext_witness = true /\
+  run pretext_witness = Ok [s "alpha beta"; s "@note Note"; s "     gamma"] /\
+  words [s "alpha beta"; s "@note Note"; s "     gamma"] = spec_words pretext_witness /\
+  spec_words pretext_witness = [s "alpha"; s "beta"; s "@note"; s "Note"; s "gamma"].
 Proof. vm_compute. repeat split. Qed.
 
-Theorem refuted_pretext_statement : ~ admon_words_statement.
-Proof.
-  intros H. specialize (H pretext_witness [s " @note Note"; s "      gamma"] eq_refl eq_refl).
-  vm_compute in H. discriminate H.
-Qed.
+(* "@note" inside a word is no marker *)
+Theorem inside_word_fixed :
+  admon_ok [s "mail joe@notebook.org now"] = true /\
+  run [s "mail joe@notebook.org now"] = Ok [s "mail joe@notebook.org now"].
+Proof. vm_compute. split; reflexivity. Qed.
 
-(* ---- indentation: the lines strictly inside a box get four more blanks ---- *)
+(* ---- indentation: exactly the lines strictly inside a box get four more blanks ---- *)
 (* one iteration of the second pass, any position of the box in the text: the lines strictly
-   between the start line and the end line are indented (empty lines stay empty), the lines
-   before the box are untouched *)
-Theorem step_indents ty a1 ls m le r p ind ty' post out :
+   between the start line and the first line after the box are indented (empty lines stay empty),
+   the lines before the box are untouched *)
+Theorem step_indents ty a1 ls m rest p ind ty' post out :
   adm_search ls = Some (p, ind, ty', post) ->
-  step (ty, length a1, length (a1 ++ ls :: m)) (a1 ++ ls :: m ++ le :: r) = Ok out ->
+  step (ty, length a1, length (a1 ++ ls :: m)) (a1 ++ ls :: m ++ rest) = Ok out ->
   exists tail, out = a1 ++ title_block ind ty post ++ map indent1 m ++ tail.
 Proof.
-  intros HS. destruct (end_search le) as [[[pre ety] epost]|] eqn:HE.
-  - rewrite (step_far_end ty a1 ls m le r p ind ty' post pre ety epost HS HE).
+  intros HS. destruct rest as [|le r].
+  - rewrite (step_far_noend ty a1 ls m [] p ind ty' post HS I).
     intros H. injection H as <-. eexists. reflexivity.
-  - rewrite (step_far_noend ty a1 ls m le r p ind ty' post HS HE).
-    intros H. injection H as <-. eexists. reflexivity.
+  - destruct (end_search le) as [[[pre ety] epost]|] eqn:HE.
+    + rewrite (step_far_end ty a1 ls m le r p ind ty' post pre ety epost HS HE).
+      intros H. injection H as <-. eexists. reflexivity.
+    + rewrite (step_far_noend ty a1 ls m (le :: r) p ind ty' post HS HE).
+      intros H. injection H as <-. eexists. reflexivity.
 Qed.
+
+(* and the text after the box is left alone *)
+Theorem step_rest_untouched ty a1 ls m rest p ind ty' post :
+  adm_search ls = Some (p, ind, ty', post) -> no_end_at rest ->
+  step (ty, length a1, length (a1 ++ ls :: m)) (a1 ++ ls :: m ++ rest)
+  = Ok (a1 ++ title_block ind ty post ++ map indent1 m ++ rest).
+Proof. exact (step_far_noend ty a1 ls m rest p ind ty' post). Qed.
 
 (* the whole pre-processor on a box closed by its end marker, preceded by plain text and followed
    by any clean text *)
@@ -1553,34 +1718,39 @@ Lemma box_run P st M x Q ind ty post pre ety epost out :
   run (P ++ st :: M ++ x :: Q) = Ok out ->
   exists T0,
     out = P ++ title_block ind ty post ++ map indent1 M ++ map indent1 (end_keep pre)
-            ++ indent_hd (end_extra epost ++ T0)
+            ++ end_extra epost ++ T0
     /\ words T0 = spec_words Q
-    /\ match Q with q :: _ => plain q -> exists T', T0 = q :: T' | [] => T0 = [] end.
+    /\ match split_leading_text Q with q :: _ => plain q -> exists T', T0 = q :: T' | [] => T0 = [] end.
 Proof.
-  intros [HP HS HE Hi Hty HM HSx HEx Hsame HQ]. rewrite run_unfold.
+  intros [HP HS HE Hi Hty HM HSx HEx Hsame HQ]. unfold run.
+  rewrite (split_plain P _ HP), (split_cons st _ (split_line_nopre st _ _ _ HS)), (split_plain M _ HM),
+    (split_cons x Q (split_line_none x HSx)).
+  pose proof (admon_ok_LF Q HQ) as HLF. pose proof (split_words Q) as HspQ.
+  set (Q' := split_leading_text Q) in *.
+  rewrite run_unfold.
   rewrite find_emit_plain_none by assumption. cbn [find_emit]. rewrite HS, HE.
   assert (Hne : is_empty st = false).
   { destruct st; [rewrite adm_search_nil in HS; discriminate|reflexivity]. }
   rewrite Hne.
-  destruct (find_emit_plain_some M (S (0 + length P)) ty (0 + length P) None (x :: Q) HM) as (eo' & ->).
+  destruct (find_emit_plain_some M (S (0 + length P)) ty (0 + length P) None (x :: Q') HM) as (eo' & ->).
   cbn [find_emit]. rewrite HSx, HEx.
   assert (str_eqb (lower ety) (lower ty) = true) as -> by now apply str_eqb_eq.
   cbn [app].
   assert (Hidx : S (S (0 + length P) + length M) = length ((P ++ st :: M) ++ [x]))
     by (repeat (rewrite app_length || cbn [length]); lia).
   rewrite Hidx.
-  destruct (find_emit (length ((P ++ st :: M) ++ [x])) None Q) as [adms0|e] eqn:Hf0; [|discriminate].
+  destruct (find_emit (length ((P ++ st :: M) ++ [x])) None Q') as [adms0|e] eqn:Hf0; [|discriminate].
   cbn [lift bind app process_rec].
-  destruct (main Q ((P ++ st :: M) ++ [x]) None adms0 (admon_ok_LF Q HQ) Hf0) as (T0 & Hp0 & Hw0 & Hhd).
-  replace (P ++ st :: M ++ x :: Q) with (((P ++ st :: M) ++ [x]) ++ Q) by app_norm.
+  destruct (main Q' ((P ++ st :: M) ++ [x]) None adms0 HLF Hf0) as (T0 & Hp0 & Hw0 & Hhd).
+  replace (P ++ st :: M ++ x :: Q') with (((P ++ st :: M) ++ [x]) ++ Q') by app_norm.
   rewrite Hp0. cbn [bind].
   replace (((P ++ st :: M) ++ [x]) ++ T0) with (P ++ st :: M ++ x :: T0) by app_norm.
   replace (0 + length P) with (length P) by lia.
   replace (S (length P) + length M) with (length (P ++ st :: M)) by (rewrite app_length; simpl; lia).
   rewrite (step_far_end ty P st M x T0 [] ind ty post pre ety epost HS HEx).
   intros H. injection H as <-. exists T0. split; [reflexivity|]. split.
-  - now rewrite spec_words_flat.
-  - destruct Q as [|q Q']; [|exact (proj2 Hhd)].
+  - now rewrite Hw0, <- spec_words_flat.
+  - destruct Q' as [|q Q'']; [|exact (proj2 Hhd)].
     cbn [find_emit] in Hf0. injection Hf0 as <-. cbn [process_rec] in Hp0. injection Hp0 as Hp0.
     apply app_inv_head in Hp0. now symmetry.
 Qed.
@@ -1593,69 +1763,43 @@ Theorem box_indent P st M x Q ind ty post pre ety epost out :
     /\ words T = words_line epost ++ spec_words Q.
 Proof.
   intros Hb Hrun. destruct (box_run _ _ _ _ _ _ _ _ _ _ _ _ Hb Hrun) as (T0 & -> & Hw & _).
-  eexists. split; [reflexivity|]. now rewrite words_indent_hd, words_app, words_end_extra, Hw.
+  eexists. split; [reflexivity|]. now rewrite words_app, words_end_extra, Hw.
 Qed.
 
-(* exactness: the plain line that follows the end-marker line keeps its indentation *)
-Definition box_exact_statement : Prop :=
-  forall P st M x q Q ind ty post pre ety epost out,
-    box_hyps P st M x (q :: Q) ind ty post pre ety epost -> plain q ->
-    run (P ++ st :: M ++ x :: q :: Q) = Ok out ->
-    exists T', out = P ++ title_block ind ty post ++ map indent1 M ++ map indent1 (end_keep pre)
-                       ++ end_extra epost ++ q :: T'.
-
-(* recorded region: nothing after the end marker on its line and a non-empty next line *)
-Definition pullin_region (epost q : str) : bool := is_empty epost && negb (is_empty q).
-
-Theorem box_exact_partial P st M x q Q ind ty post pre ety epost out :
+(* exactness (the former defect doc-line-after-box-indented): the plain line that follows the
+   end-marker line keeps its indentation *)
+Theorem box_exact P st M x q Q ind ty post pre ety epost out :
   box_hyps P st M x (q :: Q) ind ty post pre ety epost -> plain q ->
-  pullin_region epost q = false ->
   run (P ++ st :: M ++ x :: q :: Q) = Ok out ->
   exists T', out = P ++ title_block ind ty post ++ map indent1 M ++ map indent1 (end_keep pre)
                      ++ end_extra epost ++ q :: T'.
 Proof.
-  intros Hb Hq Hreg Hrun. destruct (box_run _ _ _ _ _ _ _ _ _ _ _ _ Hb Hrun) as (T0 & -> & _ & Hhd).
-  destruct (Hhd Hq) as (T' & ->). exists T'. do 4 f_equal.
-  unfold pullin_region in Hreg. destruct epost as [|c e]; [|reflexivity].
-  destruct q as [|c q]; [reflexivity|discriminate Hreg].
+  intros Hb Hq Hrun. destruct (box_run _ _ _ _ _ _ _ _ _ _ _ _ Hb Hrun) as (T0 & -> & _ & Hhd).
+  rewrite (split_cons q Q (split_line_none q (proj1 Hq))) in Hhd.
+  destruct (Hhd Hq) as (T' & ->). now exists T'.
 Qed.
 
 Definition pullin_witness : list str := [s "@note"; s "a"; s "@endnote"; s "b"].
 
-Theorem refuted_pullin :
-  run pullin_witness = Ok [s "@note Note"; s "    a"; s "    b"].
-Proof. reflexivity. Qed.
-
-Theorem refuted_box_exact : ~ box_exact_statement.
-Proof.
-  intros H.
-  destruct (H [] (s "@note") [s "a"] (s "@endnote") (s "b") [] [] (s "note") [] [] (s "note") []
-              [s "@note Note"; s "    a"; s "    b"]) as (T' & HT).
-  - constructor; try reflexivity; repeat constructor.
-  - split; reflexivity.
-  - reflexivity.
-  - vm_compute in HT. discriminate HT.
-Qed.
-
-(* a box closed by the next box: the next title line is indented as well (python-markdown then
-   nests the second box in the first one) *)
-Theorem consecutive_boxes_nested :
-  run [s "@note a"; s "@warning b"] = Ok [s "@note Note"; s "     a"; s "    @note Warning"; s "     b"].
-Proof. reflexivity. Qed.
+(* the former witnesses: the line after the box is not pulled in, consecutive boxes do not nest *)
+Theorem pullin_fixed :
+  run pullin_witness = Ok [s "@note Note"; s "    a"; s "b"] /\
+  run [s "@note a"; s "@warning b"] = Ok [s "@note Note"; s "     a"; s "@note Warning"; s "     b"].
+Proof. split; reflexivity. Qed.
 
 (* ---- non-vacuity ---- *)
 Definition sample_body : list str :=
   [s "intro words"; s "@note first box"; s "- item one"; s "  @endnote"; []; s "between";
-   s "  @Warning"; s "text inside"; s "tail @endwarning after"; s "@todo one line @endtodo";
-   s "@bug"; s "last words"].
+   s "  @Warning"; s "text inside"; s "tail @endwarning after"; s "lead text @todo one line @endtodo";
+   s "mail joe@notebook.org"; s "@bug"; s "last words"].
 
 Example admon_words_ex :
   admon_ok sample_body = true /\
   exists out, run sample_body = Ok out /\ words out = spec_words sample_body /\
-              In (s "Warning") (words out) /\ In (s "after") (words out).
+              In (s "Warning") (words out) /\ In (s "after") (words out) /\ In (s "lead") (words out).
 Proof.
   split; [reflexivity|]. eexists. split; [reflexivity|]. split; [reflexivity|].
-  split; vm_compute; tauto.
+  repeat split; vm_compute; tauto.
 Qed.
 
 Example admon_errors_ex :
@@ -1664,10 +1808,7 @@ Example admon_errors_ex :
 Proof. repeat split. Qed.
 
 Example box_hyps_ex :
-  box_hyps [s "intro"] (s "  @note title") [s "  body"; []; s "  more"] (s "  last @endnote tail")
-           [s "after"; s "@bug x"] (s "  ") (s "note") (s " title") (s "  last") (s "note") (s "tail").
-Proof. constructor; try reflexivity; repeat constructor. Qed.
-
-Example box_exact_ex :
-  plain (s "after") /\ pullin_region (s "tail") (s "after") = false.
-Proof. repeat split. Qed.
+  box_hyps [s "intro"] (s "  @note title") [s "  body"; []; s "  more"] (s "  last @endnote")
+           [s "after"; s "pre @bug x"] (s "  ") (s "note") (s " title") (s "  last") (s "note") [] /\
+  plain (s "after").
+Proof. split; [constructor; try reflexivity; repeat constructor|split; reflexivity]. Qed.
